@@ -251,7 +251,8 @@ class Harness:
                 return False
             try:
                 os.makedirs(os.path.dirname(p), exist_ok=True)
-                os.symlink(tgt, p)
+                # optional 4th element 'rel': the link text is relative to the link's directory
+                os.symlink(os.path.relpath(tgt, os.path.dirname(p)) if len(s) > 3 and s[3] == 'rel' else tgt, p)
                 self.has_links = True
             except OSError:
                 return False
@@ -422,7 +423,7 @@ class Harness:
         if isinstance(mode, dict) and mode.get('base'):
             rctx.extra['crash_base'] = True
         try:
-            rret = ('ok', FileBuilder.build_versioned(self.cache, BUILD_NAME, versions, dsl.root_func(rctx)))
+            rret = ('ok', FileBuilder.build_versioned(dsl.spell(prog.get('spell'), 'cache%d' % self.step, self.cache), BUILD_NAME, versions, dsl.root_func(rctx)))
         except (Exception, CrashBase) as e:
             real_exc = e
             rret = ('exc', dsl.exc_class(e))
